@@ -522,45 +522,94 @@ func observeAtts(ctx sdk.Context, e *env.E1, subs []*submission) ([]any, error) 
 	return res, nil
 }
 
-// claimPair lets two different validators submit the two claims through the REAL msg server and reads back, from the raw
-// module store, the attestations that now exist.  The claims were pooled iff one attestation carries both votes; a second
-// claim that was refused counts as kept apart unless the key it would have been filed under is the first claim's key.
-func claimPair(a, b *item) (*pairResult, error) {
+// claimOrder lets validator 0 submit x and then validator 1 submit y (ValidateBasic + the REAL msg server, one fresh
+// branch of the prepared world) and reads back, from the raw module store, the attestations that now exist.
+// The claims were pooled iff one attestation carries both votes.  A claim refused by ValidateBasic never reaches the
+// state (kept apart); a claim refused later counts as kept apart unless the key it would have been filed under is the
+// key of the other claim's attestation.
+func claimOrder(x, y *item) (*pairResult, error) {
 	e := world()
 	ctx, _ := e.Ctx.CacheContext()
-	sa, err := submitClaim(ctx, e, a, e.Vals[0])
-	if err != nil {
-		return nil, fmt.Errorf("submit base claim: %w", err)
-	}
-	if sa.key == nil {
-		return nil, fmt.Errorf("the base claim created no attestation: %s", sa.refused)
-	}
-	sb, err := submitClaim(ctx, e, b, e.Vals[1])
-	if err != nil {
-		return nil, fmt.Errorf("submit perturbed claim: %w", err)
-	}
-	atts, err := observeAtts(ctx, e, []*submission{sa, sb})
-	if err != nil {
-		return nil, err
-	}
-	r := &pairResult{da: sa.key, db: sb.key, atts: atts}
-	switch {
-	case sb.key != nil:
-		r.differs = !bytes.Equal(sa.key, sb.key)
-	default:
-		// no second attestation: pooled, or refused
-		would, err := bodyKey(sb.submitted.(skywaytypes.EthereumClaim))
+	clone := func(it *item) (*item, error) {
+		m, err := cloneMsg(it.obj.(gogoproto.Message))
 		if err != nil {
 			return nil, err
 		}
+		return claimItem(m), nil
+	}
+	cx, err := clone(x)
+	if err != nil {
+		return nil, err
+	}
+	cy, err := clone(y)
+	if err != nil {
+		return nil, err
+	}
+	sx, err := submitClaim(ctx, e, cx, e.Vals[0])
+	if err != nil {
+		return nil, fmt.Errorf("submit first claim: %w", err)
+	}
+	sy, err := submitClaim(ctx, e, cy, e.Vals[1])
+	if err != nil {
+		return nil, fmt.Errorf("submit second claim: %w", err)
+	}
+	if sx.key == nil && sy.key == nil {
+		return nil, fmt.Errorf("neither claim created an attestation: %q / %q", sx.refused, sy.refused)
+	}
+	atts, err := observeAtts(ctx, e, []*submission{sx, sy})
+	if err != nil {
+		return nil, err
+	}
+	r := &pairResult{da: sx.key, db: sy.key, atts: atts}
+	if sx.key != nil && sy.key != nil {
+		r.differs = !bytes.Equal(sx.key, sy.key)
+		return r, nil
+	}
+	// one attestation only: pooled, or one claim was refused
+	has, lacks := sx, sy
+	if sx.key == nil {
+		has, lacks = sy, sx
+	}
+	would, err := bodyKey(lacks.submitted.(skywaytypes.EthereumClaim))
+	if err != nil {
+		return nil, err
+	}
+	if sx.key == nil {
+		r.da = would
+	} else {
 		r.db = would
-		pooled := false
-		for _, x := range atts {
-			if x.(map[string]any)["votes"].(int) >= 2 {
-				pooled = true
-			}
+	}
+	pooled := false
+	for _, a := range atts {
+		if a.(map[string]any)["votes"].(int) >= 2 {
+			pooled = true
 		}
-		r.differs = !pooled && !bytes.Equal(would, sa.key)
+	}
+	switch {
+	case pooled:
+		r.differs = false
+	case strings.HasPrefix(lacks.refused, "ValidateBasic:"):
+		r.differs = true
+	default:
+		r.differs = !bytes.Equal(would, has.key)
+	}
+	return r, nil
+}
+
+// claimPair submits the two claims in BOTH orders (whose body is stored depends on who is first); the claims are kept
+// apart only if they are in both.
+func claimPair(a, b *item) (*pairResult, error) {
+	r1, err := claimOrder(a, b)
+	if err != nil {
+		return nil, err
+	}
+	r2, err := claimOrder(b, a)
+	if err != nil {
+		return nil, fmt.Errorf("reverse order: %w", err)
+	}
+	r := &pairResult{da: r1.da, db: r1.db, differs: r1.differs && r2.differs, atts: append(r1.atts, r2.atts...)}
+	if r1.differs && !r2.differs {
+		r.da, r.db = r2.db, r2.da
 	}
 	return r, nil
 }
@@ -598,7 +647,7 @@ func lightNodeSale() *skywaytypes.MsgLightNodeSaleClaim {
 // textClasses builds, for the string fields of a claim, the pairs that differ ONLY in letter case and ONLY by
 // surrounding whitespace.  letterful: a realistic value of the field that contains letters, and its mixed-case twin.
 func textClasses(base func() *item, letterful map[string][2]string) map[string]map[string]func() []cand {
-	res := map[string]map[string]func() []cand{"case": {}, "space": {}}
+	res := map[string]map[string]func() []cand{"case": {}, "space": {}, "dot": {}, "trail": {}, "dotdot": {}, "dslash": {}, "empty": {}}
 	for f, vs := range letterful {
 		f, vs := f, vs
 		mk := func(va, vb string) (cand, error) {
@@ -629,8 +678,47 @@ func textClasses(base func() *item, letterful map[string][2]string) map[string]m
 			}
 			return cs
 		}
+		several := func(pairs ...[2]string) func() []cand {
+			return func() []cand {
+				var cs []cand
+				for _, p := range pairs {
+					c, err := mk(p[0], p[1])
+					if err != nil {
+						panic(err)
+					}
+					cs = append(cs, c)
+				}
+				return cs
+			}
+		}
+		v, h := vs[0], len(vs[0])/2
+		// values an over-eager "path cleaning" / element-dropping join identifies
+		res["dot"][f] = several([2]string{v, "./" + v}, [2]string{v, v + "/."}, [2]string{v, v[:h] + "/./" + v[h:]})
+		res["trail"][f] = several([2]string{v, v + "/"}, [2]string{v, "/" + v})
+		res["dotdot"][f] = several([2]string{v, "x/../" + v}, [2]string{v, v + "/x/.."})
+		res["dslash"][f] = several([2]string{v[:h] + "/" + v[h:], v[:h] + "//" + v[h:]})
 	}
 	return res
+}
+
+// emptyCands: an element that is empty while its content sits in the neighbouring field (first precedes second in the
+// digest input): (first="", second=v) ~ (first=v, second=""), and (first=v, second=w) ~ (first="", second=v/w), (first=v/w, second="").
+func emptyCands(base func() *item, first, second, v, w string) func() []cand {
+	return func() []cand {
+		mk := func(a1, a2, b1, b2 string) cand {
+			a, b := base(), base()
+			for _, x := range []struct {
+				it   *item
+				f, v string
+			}{{a, first, a1}, {a, second, a2}, {b, first, b1}, {b, second, b2}} {
+				if err := setPath(x.it.obj, x.f, x.v, nil); err != nil {
+					panic(err)
+				}
+			}
+			return cand{a, b, fmt.Sprintf("(%s=%q, %s=%q) ~ (%s=%q, %s=%q), all else equal", first, a1, second, a2, first, b1, second, b2)}
+		}
+		return []cand{mk(v, "", "", v), mk(v, w, "", v+"/"+w), mk(v, w, v+"/"+w, "")}
+	}
 }
 
 const (
@@ -713,6 +801,14 @@ func kindsC11() []*kindDef {
 	}
 	for _, k := range ks {
 		k.class = textClasses(k.base, letterful[k.name])
+	}
+	for _, k := range ks {
+		switch k.name {
+		case "MsgSendToPalomaClaim":
+			k.class["empty"]["compass_id,paloma_receiver"] = emptyCands(k.base, "paloma_receiver", "compass_id", accA, tsA)
+		case "MsgLightNodeSaleClaim":
+			k.class["empty"]["compass_id,smart_contract_address"] = emptyCands(k.base, "smart_contract_address", "compass_id", hexLower, tsA)
+		}
 	}
 	return ks
 }
@@ -921,7 +1017,7 @@ func txProof() *evmtypes.TxExecutedProof {
 	return &evmtypes.TxExecutedProof{SerializedTX: signedTx(5, addrF, []byte{0xde, 0xad, 0xbe, 0xef}), SerializedReceipt: receiptBytes(1, 180000)}
 }
 
-func kindsC04() []*kindDef {
+func kindsC04raw() []*kindDef {
 	mk := func(name string, base func() any, alt map[string]any, shift map[string]func() []cand) *kindDef {
 		return &kindDef{name: name, family: "C04", base: func() *item { return claimItem(base()) }, alt: alt, shift: shift, pair: proofPair}
 	}
@@ -967,6 +1063,69 @@ func kindsC04() []*kindDef {
 			},
 		}),
 	}
+}
+
+// kindsC04 adds the path-cleaning / element-dropping value classes for the free-text fields of the proofs.
+func kindsC04() []*kindDef {
+	ks := kindsC04raw()
+	pathModes := func(k *kindDef, f string, v string, set func(it *item, val string)) {
+		if k.class == nil {
+			k.class = map[string]map[string]func() []cand{}
+		}
+		h := len(v) / 2
+		variants := map[string][][2]string{
+			"dot":    {{v, "./" + v}, {v, v + "/."}, {v, v[:h] + "/./" + v[h:]}},
+			"trail":  {{v, v + "/"}, {v, "/" + v}},
+			"dotdot": {{v, "x/../" + v}, {v, v + "/x/.."}},
+			"dslash": {{v[:h] + "/" + v[h:], v[:h] + "//" + v[h:]}},
+		}
+		for mode, pairs := range variants {
+			pairs := pairs
+			if k.class[mode] == nil {
+				k.class[mode] = map[string]func() []cand{}
+			}
+			k.class[mode][f] = func() []cand {
+				var cs []cand
+				for _, p := range pairs {
+					a, b := k.base(), k.base()
+					set(a, p[0])
+					set(b, p[1])
+					cs = append(cs, cand{a, b, fmt.Sprintf("%s: %q ~ %q, all else equal", f, p[0], p[1])})
+				}
+				return cs
+			}
+		}
+	}
+	for _, k := range ks {
+		switch k.name {
+		case "SmartContractExecutionErrorProof":
+			pathModes(k, "errorMessage", "execution reverted: deadline passed", func(it *item, v string) {
+				it.obj.(*evmtypes.SmartContractExecutionErrorProof).ErrorMessage = v
+			})
+		case "ReferenceBlockAttestationRes":
+			pathModes(k, "blockHash", "0x5bd1e4b2e7c9c0e6b1f3a2d4c5b6a79881726354a0b1c2d3e4f5061728394a5b", func(it *item, v string) {
+				it.obj.(*evmtypes.ReferenceBlockAttestationRes).BlockHash = v
+			})
+		case "ValidatorBalancesAttestationRes":
+			pathModes(k, "balances", "20000000000000000", func(it *item, v string) {
+				it.obj.(*evmtypes.ValidatorBalancesAttestationRes).Balances[1] = v
+			})
+			k.class["empty"] = map[string]func() []cand{"balances": func() []cand {
+				mk := func(x, y []string) cand {
+					a, b := k.base(), k.base()
+					a.obj.(*evmtypes.ValidatorBalancesAttestationRes).Balances = x
+					b.obj.(*evmtypes.ValidatorBalancesAttestationRes).Balances = y
+					return cand{a, b, fmt.Sprintf("balances=%q ~ balances=%q, all else equal", x, y)}
+				}
+				return []cand{
+					mk([]string{"1500000000000000000", "", "7"}, []string{"1500000000000000000", "7"}),
+					mk([]string{"", "7"}, []string{"7", ""}),
+					mk([]string{"1500000000000000000", "7"}, []string{"", "1500000000000000000/7"}),
+				}
+			}}
+		}
+	}
+	return ks
 }
 
 // crossPairs crafts, for two proof types, the pairs of proofs most likely to be pooled although their types differ:
